@@ -41,8 +41,12 @@ def history(rng, key, n):
         elif k == 5 and flows:   # more data on a validated flow, arbitrary ack
             s, d, sport, dport = rng.choice(flows)
             fr.append(net.frame_tcp(s, d, sport, dport, 9, rng.getrandbits(32), 0x18, b"more"))
-        elif k == 6:    # FIN / RST / ACK
-            fr.append(net.frame_tcp(s, d, sport, dport, 5, 6, rng.choice([0x11, 0x04, 0x10, 0x14, 0x01])))
+        elif k == 6:    # FIN / RST / ACK / SYN -- on a fresh 4-tuple or on a flow that holds state
+            if flows and rng.random() < 0.5:
+                s, d, sport, dport = rng.choice(flows)
+            ck = net.cookie(key, s, d, sport, dport)
+            fr.append(net.frame_tcp(s, d, sport, dport, 5, rng.choice([6, (ck + 1) & 0xFFFFFFFF]),
+                                    rng.choice([0x11, 0x04, 0x10, 0x14, 0x01, 0x02, 0x12]), rng.choice([b"", b"", b"payload"])))
         elif k == 7 and flows:   # revalidate an existing flow
             s, d, sport, dport = rng.choice(flows)
             ck = net.cookie(key, s, d, sport, dport)
@@ -58,6 +62,8 @@ def generate(tier, rng):
         key = rng.choice([(0, 0), (1, 2), (rng.getrandbits(64), rng.getrandbits(64))])
         cfg = rng.choice(gens.cfgs(key=key))
         yield Script(cfg, history(rng, key, n), "mixed-history")
+    for key in ((0, 0), (3, 4)):
+        yield Script(gens.cfgs(key=key)[0], gens.control_on_established(rng, key), "control-on-established")
 
 
 def nontrivial(script):
